@@ -12,7 +12,7 @@ Local Open Scope list_scope.
    (Spec/SchemaSpec.satb with the mode md_of st). *)
 Theorem C01_visit_iff_sat :
   forall rc rm fo st s v,
-    g_all2 rc rm fo (md_of st) s = true -> vg v = true -> g_div s v = true ->
+    g_all2 rc rm fo (md_of st) (st_usenum st) s = true -> vg v = true -> g_div s v = true ->
     is_panic (visit rc rm fo st s v) = false /\
     accepts (visit rc rm fo st s v) = satb rc rm fo (md_of st) s v.
 Proof. intros rc rm fo st s v. exact (main_visit rc rm fo st s v). Qed.
@@ -83,8 +83,8 @@ Definition ex_schema : schema :=
 Definition ex_good : json := JObj [("l", JArr [JNum 2; JNum 4]); ("n", JNum 6); ("s", JStr "ab")].
 Definition ex_bad : json := JObj [("l", JArr [JNum 2; JNum 2]); ("n", JNum 6)].
 Example C01_hyps_satisfiable :
-  g_all2 rc1 (fun p s => String.prefix "a" s) fo0 md_plain ex_schema = true /\
-  g_all2 rc1 (fun p s => String.prefix "a" s) fo0 (md_of st_multi_) ex_schema = true /\ vg ex_good = true /\ g_div ex_schema ex_good = true /\
+  g_all2 rc1 (fun p s => String.prefix "a" s) fo0 md_plain false ex_schema = true /\
+  g_all2 rc1 (fun p s => String.prefix "a" s) fo0 (md_of st_multi_) true ex_schema = true /\ vg ex_good = true /\ g_div ex_schema ex_good = true /\
   vg ex_bad = true /\ g_div ex_schema ex_bad = true /\
   satb rc1 (fun p s => String.prefix "a" s) fo0 md_plain ex_schema ex_good = true /\
   satb rc1 (fun p s => String.prefix "a" s) fo0 md_plain ex_schema ex_bad = false.
